@@ -1,20 +1,20 @@
 #!/bin/sh
 # usage: verify_seed.sh <id>  -- confirms a seeded change in /tmp/seed/<id>: suite passes with it, demo fails with it, demo passes without it
 export GOFLAGS=-mod=mod GOPROXY=off GOSUMDB=off GOTOOLCHAIN=local
-id=$1; d=/tmp/seed/$id
+id=$1; d=${SEEDROOT:-/tmp/seed}/$id
 cd $d || exit 2
 demo=$(git status --porcelain | grep 'zz_seed_demo_test.go' | awk '{print $2}')
 pkg=./$(dirname $demo)
 echo "demo=$demo pkg=$pkg"
 git diff --stat | tail -1
 # 1. suite with change (demo moved aside)
-mv $demo /tmp/seed/$id.demo.go
+mv $demo /tmp/$id.demo.go.aside
 go build ./... && go test -vet=off -count=1 ./... 2>&1 | grep -v "no test files" | tr '\n' ' '; echo
-mv /tmp/seed/$id.demo.go $demo
+mv /tmp/$id.demo.go.aside $demo
 # 2. demo with change
 go test -vet=off -count=1 -run 'Seed|seed|ZZ' $pkg 2>&1 | tail -3 | tr '\n' ' '; echo " <- demo WITH change"
 # 3. demo without change
-git diff -- . ':!*_test.go' > /tmp/seed/$id.src.diff
-git apply -R /tmp/seed/$id.src.diff
+git diff -- . ':!*_test.go' > /tmp/$id.src.diff
+git apply -R /tmp/$id.src.diff
 go test -vet=off -count=1 -run 'Seed|seed|ZZ' $pkg 2>&1 | tail -2 | tr '\n' ' '; echo " <- demo WITHOUT change"
-git apply /tmp/seed/$id.src.diff
+git apply /tmp/$id.src.diff
